@@ -319,6 +319,33 @@ pub fn programs(tier: &str) -> Vec<Program> {
     v
 }
 
+/// Compaction family: the index (capacity 3) is full with a tombstone in internal slot 0, so the
+/// insert of a NEW id runs tombstone compaction (which renumbers internal ids) while another
+/// client reads or writes ids 1 / 2. Both thread orders.
+pub fn compaction_programs(tier: &str) -> Vec<Program> {
+    let trigger = vec![EOp::Ins(3, 31)];
+    let mut others: Vec<Vec<EOp>> = vec![
+        vec![EOp::Query(1)],
+        vec![EOp::GetDocMeta(1)],
+        vec![EOp::BulkQuery],
+        vec![EOp::EmbCacheAware(1)],
+        vec![EOp::Del(1)],
+        vec![EOp::Ins(1, 11)],
+        vec![EOp::UpdMeta(1, 7), EOp::GetDocMeta(1)],
+    ];
+    if tier == "thorough" {
+        others.push(vec![EOp::Query(1), EOp::Query(1)]);
+        others.push(vec![EOp::Del(1), EOp::Query(1)]);
+        others.push(vec![EOp::Exists(1)]);
+    }
+    let mut v = Vec::new();
+    for o in &others {
+        v.push(vec![trigger.clone(), o.clone()]);
+        v.push(vec![o.clone(), trigger.clone()]);
+    }
+    v
+}
+
 pub fn worker(wi: usize, wn: usize, tier: &str) {
     let bound: usize = std::env::var("C05_BOUND").ok().and_then(|s| s.parse().ok()).unwrap_or(if tier == "thorough" { 2 } else { 1 });
     let max_execs: usize = std::env::var("C05_MAX_EXECS").ok().and_then(|s| s.parse().ok()).unwrap_or(if tier == "thorough" { 60_000 } else { 6_000 });
@@ -333,6 +360,13 @@ pub fn worker(wi: usize, wn: usize, tier: &str) {
             check_program(&p, init, bound, max_execs, &mut agg);
         }
     }
+    for p in compaction_programs(tier) {
+        idx += 1;
+        if idx % wn != wi {
+            continue;
+        }
+        check_program(&p, Init::FullTomb, bound.max(2), max_execs.max(20_000), &mut agg);
+    }
     vcore::par::worker_emit(&json!({"programs":agg.programs,"executions":agg.executions,"points":agg.points,"capped":agg.capped,"deadlocks":agg.deadlocks,
         "preempted_distinct":agg.preempted_distinct_outcomes,"violations":agg.viol.to_json()}));
 }
@@ -345,7 +379,7 @@ pub fn run(tier: &str, replay: Option<&str>) -> i32 {
         let names: Vec<Vec<String>> = serde_json::from_value(c["program"].clone()).unwrap();
         let init: Init = serde_json::from_value(c["init"].clone()).unwrap();
         for tier in ["thorough"] {
-            for prog in programs(tier) {
+            for prog in programs(tier).into_iter().chain(compaction_programs(tier)) {
                 if pname(&prog) == names {
                     let mut agg = Agg::default();
                     check_program(&prog, init, 2, 100_000, &mut agg);
@@ -382,7 +416,7 @@ pub fn run(tier: &str, replay: Option<&str>) -> i32 {
     ev.set("traces_validated_against_impl", tot["executions"]);
     ev.set("evaluations", tot["executions"]);
     ev.set("distinct_nontrivial", tot["preempted_distinct"]);
-    ev.set("rule", format!("programs: one writer thread (insert / delete / overwrite pair / insert-delete / delete-insert on id 1) x one other thread (point read, read with metadata, bulk read, existence probe, cache-aware read, read pairs, competing insert/delete, write-then-read) and three-thread single-op mixes, each from 4 initial states (absent, cold-only, cached, in recent-write tier); every schedule with <= {bound} preemptions at lock granularity on a fresh TieredEngine; oracle: brute-force linearizability per document against a sequential map (real-time order from scheduler stamps), vector and metadata of one read from the same write, then a sequential epilogue (all read flavours, forced drain, reads again) whose result must be the final state of some linearization and must not change across the drain. non-trivial = executions with >=1 preemption whose observed return values differ from every preemption-free execution of the same program"));
+    ev.set("rule", format!("programs: one writer thread (insert / delete / overwrite pair / insert-delete / delete-insert on id 1) x one other thread (point read, read with metadata, bulk read, existence probe, cache-aware read, read pairs, competing insert/delete, write-then-read) and three-thread single-op mixes, each from 4 initial states (absent, cold-only, cached, in recent-write tier); every schedule with <= {bound} preemptions at lock granularity on a fresh TieredEngine; oracle: brute-force linearizability per document against a sequential map (real-time order from scheduler stamps), vector and metadata of one read from the same write, then a sequential epilogue (all read flavours, forced drain, reads again) whose result must be the final state of some linearization and must not change across the drain. non-trivial = executions with >=1 preemption whose observed return values differ from every preemption-free execution of the same program; plus the compaction family from a full index with a tombstone in slot 0: insert of a new id (tombstone compaction renumbers internal ids) x {{query, get_document_with_metadata, bulk_query, cache-aware embedding read, delete, overwrite, metadata update + read}} on id 1, both thread orders, <= 2 preemptions"));
     ev.set("samples", json!([{"program":[["insert(1,w11)","delete(1)"],["get_document_with_metadata(1)","query(1)"]],"init":"Cached"}]));
     ev.set("exhaustive", tot["capped"] == 0);
     ev.set("programs", tot["programs"]);
